@@ -221,6 +221,10 @@ def run(ctx):
                     ctx.rm(ddir)
         ctx.count("files_damaged")
     size_sweep(ctx, rng, cache, destroot, modes)
+    # a destination produced by an earlier extraction (same or another entry point; a hard link IS the content file),
+    # the content then damaged in place, a checked extraction onto it: Ok only with the stored bytes (shared with C18)
+    from . import c18
+    c18.repeat_after_damage(ctx, rng, cache, destroot, modes)
     for d in fic.values():
         d.close()
     ctx.extra["ok_on_trivial_damage"] = n_ok_trivial
